@@ -107,6 +107,9 @@ def replay_a(rep):
 # (b) execution strategy
 # --------------------------------------------------------------------------
 def strategy_run(job):
+    # several host "devices" so that the sharded execution strategy (devices=[...]) can be exercised on CPU
+    if "xla_force_host_platform_device_count" not in os.environ.get("XLA_FLAGS", ""):
+        os.environ["XLA_FLAGS"] = os.environ.get("XLA_FLAGS", "") + " --xla_force_host_platform_device_count=4"
     import jax
     jax.config.update("jax_enable_x64", True)
     import jax.numpy as jnp
@@ -143,6 +146,9 @@ def strategy_run(job):
     pos = jft.Vector(jft.random_like(k1, m.domain)) * 0.1
     out = {}
     for v in job["variants"]:
+        ndev = v.get("devices")
+        if ndev and ((2 * p["n_samples"]) % ndev != 0 or len(jax.devices()) < ndev):
+            continue               # samples must be evenly distributable over the devices
         if v.get("solvers") == "eager":
             # the library's default (eager Python) minimisers - only legal with the loop map and without minimiser JIT
             dl = dict(cg_name=None, cg_kwargs=dict(cgkw))
@@ -158,7 +164,8 @@ def strategy_run(job):
             draw_linear_kwargs=dl, nonlinearly_update_kwargs=nl,
             kl_kwargs=dict(minimize_kwargs=dict(name=None, xtol=1e-8, maxiter=4, cg_kwargs=dict(name=None))),
             residual_map=v["residual_map"], kl_map=v["kl_map"], jit=v["jit"],
-            linear_minimizer_jit=v["lin_jit"], nonlinear_minimizer_jit=v["nl_jit"])
+            linear_minimizer_jit=v["lin_jit"], nonlinear_minimizer_jit=v["nl_jit"],
+            devices=jax.devices()[:ndev] if ndev else None)
         try:
             s, st = jft.optimize_kl(lh, pos, **kw)
             flat = np.concatenate([np.ravel(np.asarray(x)) for x in jax.tree_util.tree_leaves((s.pos, s._samples))])
@@ -189,6 +196,10 @@ def variants():
                 continue
             vs.append({"residual_map": "lmap", "kl_map": km, "jit": jit, "lin_jit": False, "nl_jit": False,
                        "solvers": "eager"})
+    # samples sharded over several (host) devices
+    for nd in (2, 4):
+        for rm in ("vmap", "smap"):
+            vs.append({"residual_map": rm, "kl_map": "vmap", "jit": True, "lin_jit": False, "nl_jit": False, "devices": nd})
     return vs
 
 
@@ -196,6 +207,7 @@ def variants():
 # variants on the unchanged tree the largest deviation seen was 6.3e-11 (every solver stops on a residual norm or an
 # iteration cap, never on a knife-edge); 1e-8 leaves a factor > 100 and still exposes a solver that loses digits.
 TOL_B = 1e-8
+cov_devices = [0]
 
 
 def compare_b(problem, res):
@@ -213,6 +225,8 @@ def compare_b(problem, res):
         if isinstance(v, str):
             raise Violation({"oracle": "strategy-run-raised", "variant": k}, v)
         v = np.array(v)
+        if "devices" in k:
+            cov_devices[0] += 1
         if v.shape == ref.shape:
             worst = max(worst, float(np.max(np.abs(v - ref))) / scale)
         if v.shape != ref.shape or not np.all(np.abs(v - ref) <= TOL_B * scale):
@@ -253,6 +267,7 @@ def engine_b(rep, tier, seed, cov):
         except Violation as v:
             rep.violation(v.sig, {"engine": "repro/strategy", "problem": json.loads(pj), "detail": v.detail})
     cov["b_strategy_runs"] = n
+    cov["b_multi_device_runs_compared"] = cov_devices[0]
     cov["b_variants"] = len(variants())
     return n, n
 
